@@ -101,10 +101,17 @@ Qed.
 Corollary split_on_join ls : ls <> [] -> Forall no_crlf ls -> split_on CRLF (join_crlf ls) = ls.
 Proof. intros H1 H2. unfold split_on. apply split_join; auto. Qed.
 
-(* ---------- one header line ---------- *)
-Record hline := { hl_name : bytes; hl_lead : bytes; hl_value : bytes; hl_trail : bytes }.
+(* ---------- one header: its line and its obsolete-folding continuation lines ---------- *)
+Record hline := { hl_name : bytes; hl_lead : bytes; hl_value : bytes; hl_trail : bytes;
+                  hl_cont : list (bytes * bytes) (* continuation lines: leading blanks, text *) }.
 Definition render_line (h : hline) : bytes := hl_name h ++ COLON :: hl_lead h ++ hl_value h ++ hl_trail h.
+Definition render_cont (c : bytes * bytes) : bytes := fst c ++ snd c.
+Definition render_lines (h : hline) : list bytes := render_line h :: map render_cont (hl_cont h).
 Definition padded (h : hline) : bytes := hl_lead h ++ hl_value h ++ hl_trail h.
+(* what the parser collects for this header: the first value, then a blank and the left-stripped text of every fold *)
+Definition cont_frags (c : bytes * bytes) : list bytes := [[SP]; lstrip_by is_space (render_cont c)].
+Definition frags (h : hline) : list bytes := [padded h] ++ flat_map cont_frags (hl_cont h).
+Definition value_text (h : hline) : bytes := concat (frags h).
 
 Definition is_ascii (b : byte) : bool := b2n b <? 128.
 Definition blank (b : byte) : Prop := b = SP \/ b = HT.
@@ -112,11 +119,17 @@ Definition blank (b : byte) : Prop := b = SP \/ b = HT.
 Definition name_char (b : byte) : Prop := is_ascii b = true /\ is_space b = false /\ b <> COLON.
 Definition value_char (b : byte) : Prop := is_ascii b = true /\ b <> CR /\ b <> LF.
 
+Record wf_cont (c : bytes * bytes) : Prop := {
+  wc_lws : fst c <> [] /\ Forall blank (fst c);
+  wc_text : Forall value_char (snd c);
+  wc_solid : exists b, In b (snd c) /\ is_space b = false      (* the line is not blank *)
+}.
 Record wf_line (h : hline) : Prop := {
   wl_name : hl_name h <> [] /\ Forall name_char (hl_name h);
   wl_lead : Forall blank (hl_lead h);
   wl_value : Forall value_char (hl_value h);
-  wl_trail : Forall blank (hl_trail h)
+  wl_trail : Forall blank (hl_trail h);
+  wl_cont : Forall wf_cont (hl_cont h)
 }.
 
 Lemma blank_space b : blank b -> is_space b = true.
@@ -131,8 +144,6 @@ Qed.
 
 Lemma is_space_lower b : is_space (lower b) = is_space b.
 Proof. destruct b; reflexivity. Qed.
-Lemma lower_not_colon b : b <> COLON -> lower b <> COLON.
-Proof. destruct b; intros H; try discriminate; exact H. Qed.
 
 Lemma strip_solid x : x <> [] -> Forall (fun b => is_space b = false) x -> strip x = x.
 Proof.
@@ -170,7 +181,7 @@ Qed.
 
 Lemma line_is_ascii h : wf_line h -> Forall (fun b => is_ascii b = true) (render_line h).
 Proof.
-  intros [[_ Hn] Hl Hv Ht]. unfold render_line.
+  intros [[_ Hn] Hl Hv Ht _]. unfold render_line.
   apply Forall_app; split; [eapply Forall_impl; [|exact Hn]; intros b Hb; apply Hb|].
   constructor; [reflexivity|].
   apply Forall_app; split; [eapply Forall_impl; [|exact Hl]; intros b Hb; apply (blank_value_char b Hb)|].
@@ -178,27 +189,44 @@ Proof.
   eapply Forall_impl; [|exact Ht]. intros b Hb. apply (blank_value_char b Hb).
 Qed.
 
+Lemma blank_no_crlf b : blank b -> b <> CR /\ b <> LF.
+Proof. intros [->| ->]; split; discriminate. Qed.
+
 Lemma line_no_crlf h : wf_line h -> no_crlf (render_line h).
 Proof.
-  intros [[_ Hn] Hl Hv Ht]. unfold render_line, no_crlf.
+  intros [[_ Hn] Hl Hv Ht _]. unfold render_line, no_crlf.
   assert (NC : forall b, name_char b -> b <> CR /\ b <> LF).
   { intros b (_ & Hs & _). split; intros ->; discriminate Hs. }
-  assert (BC : forall b, blank b -> b <> CR /\ b <> LF) by (intros b [->| ->]; split; discriminate).
   apply Forall_app; split; [eapply Forall_impl; [|exact Hn]; exact NC|].
   constructor; [split; discriminate|].
-  apply Forall_app; split; [eapply Forall_impl; [|exact Hl]; exact BC|].
+  apply Forall_app; split; [eapply Forall_impl; [|exact Hl]; exact blank_no_crlf|].
   apply Forall_app; split; [eapply Forall_impl; [|exact Hv]; intros b Hb; split; apply Hb|].
-  eapply Forall_impl; [|exact Ht]. exact BC.
+  eapply Forall_impl; [|exact Ht]. exact blank_no_crlf.
+Qed.
+
+Lemma cont_is_ascii c : wf_cont c -> Forall (fun b => is_ascii b = true) (render_cont c).
+Proof.
+  intros [[_ Hl] Ht _]. unfold render_cont. apply Forall_app; split.
+  - eapply Forall_impl; [|exact Hl]. intros b Hb. apply (blank_value_char b Hb).
+  - eapply Forall_impl; [|exact Ht]. intros b Hb. apply Hb.
+Qed.
+Lemma cont_no_crlf c : wf_cont c -> no_crlf (render_cont c).
+Proof.
+  intros [[_ Hl] Ht _]. unfold render_cont, no_crlf. apply Forall_app; split.
+  - eapply Forall_impl; [|exact Hl]. exact blank_no_crlf.
+  - eapply Forall_impl; [|exact Ht]. intros b Hb. split; apply Hb.
 Qed.
 
 Definition key_of (h : hline) : bytes := lower_s (hl_name h).
+Lemma key_nonempty h : wf_line h -> exists k0 kt, key_of h = k0 :: kt.
+Proof. intros [[Hne _] _ _ _ _]. unfold key_of. destruct (hl_name h); [contradiction|]. cbn. eauto. Qed.
 
-(* what parse_header_lines does with one well-formed line *)
+(* what parse_header_lines does with the first line of a header *)
 Lemma parse_one_line h rest cur hs : wf_line h ->
   parse_header_lines (render_line h :: rest) cur hs =
   parse_header_lines rest (Some (key_of h)) (hdr_add hs (key_of h) [padded h] true).
 Proof.
-  intros W. pose proof (line_is_ascii h W) as HA. destruct W as [[Hne Hn] Hl Hv Ht].
+  intros W. pose proof (line_is_ascii h W) as HA. destruct W as [[Hne Hn] Hl Hv Ht _].
   destruct (hl_name h) as [|n0 nt] eqn:En; [contradiction|].
   inversion Hn as [|? ? Hn0 Hnt]; subst.
   assert (S0 : strip (render_line h) <> []).
@@ -219,16 +247,53 @@ Proof.
   destruct EL as (lt & EL). rewrite EL in D. rewrite EL. rewrite L0, D, K. reflexivity.
 Qed.
 
+(* ... and with a continuation line, while that header is the current one *)
+Lemma parse_cont_line c rest k0 kt hs : wf_cont c ->
+  parse_header_lines (render_cont c :: rest) (Some (k0 :: kt)) hs =
+  parse_header_lines rest (Some (k0 :: kt)) (hdr_add hs (k0 :: kt) (cont_frags c) false).
+Proof.
+  intros W. pose proof (cont_is_ascii c W) as HA. destruct W as [[Hne Hl] Ht (b & Hb & Hs)].
+  assert (S0 : strip (render_cont c) <> []).
+  { apply (strip_nonempty _ b); [unfold render_cont; apply in_or_app; right; exact Hb|exact Hs]. }
+  destruct (fst c) as [|w0 wt] eqn:Ew; [contradiction|]. inversion Hl as [|? ? Hw0 _]; subst.
+  assert (EL : render_cont c = w0 :: wt ++ snd c) by (unfold render_cont; rewrite Ew; reflexivity).
+  assert (L0 : is_lws w0 = true) by (destruct Hw0 as [->| ->]; reflexivity).
+  cbn [parse_header_lines]. rewrite (ascii_replace_id _ HA).
+  unfold cont_frags, lstrip.
+  remember (render_cont c) as line eqn:Eline.
+  destruct (strip line) as [|s0 st]; [contradiction|].
+  rewrite EL. rewrite L0. reflexivity.
+Qed.
+
 Lemma parse_blank_tail cur hs : parse_header_lines [[]; []] cur hs = hs.
 Proof. reflexivity. Qed.
 
-Definition add_line (acc : list (bytes * list bytes)) (h : hline) := hdr_add acc (key_of h) [padded h] true.
+Definition add_conts (k : bytes) (acc : list (bytes * list bytes)) (cs : list (bytes * bytes)) :=
+  fold_left (fun a c => hdr_add a k (cont_frags c) false) cs acc.
+Definition add_line (acc : list (bytes * list bytes)) (h : hline) :=
+  add_conts (key_of h) (hdr_add acc (key_of h) [padded h] true) (hl_cont h).
+
+Lemma parse_conts cs : Forall wf_cont cs -> forall rest k0 kt hs,
+  parse_header_lines (map render_cont cs ++ rest) (Some (k0 :: kt)) hs =
+  parse_header_lines rest (Some (k0 :: kt)) (add_conts (k0 :: kt) hs cs).
+Proof.
+  induction 1 as [|c cs Hc _ IH]; intros rest k0 kt hs; [reflexivity|].
+  cbn [map app]. rewrite parse_cont_line by exact Hc. rewrite IH. reflexivity.
+Qed.
+
+Lemma parse_header h rest cur hs : wf_line h ->
+  parse_header_lines (render_lines h ++ rest) cur hs = parse_header_lines rest (Some (key_of h)) (add_line hs h).
+Proof.
+  intros W. unfold render_lines. cbn [app]. rewrite parse_one_line by exact W.
+  destruct (key_nonempty h W) as (k0 & kt & Ek). unfold add_line. rewrite Ek.
+  apply parse_conts. apply W.
+Qed.
 
 Lemma parse_lines ls : Forall wf_line ls -> forall cur hs,
-  parse_header_lines (map render_line ls ++ [[]; []]) cur hs = fold_left add_line ls hs.
+  parse_header_lines (flat_map render_lines ls ++ [[]; []]) cur hs = fold_left add_line ls hs.
 Proof.
   induction 1 as [|h ls Hh _ IH]; intros cur hs; [apply parse_blank_tail|].
-  cbn [map app fold_left]. rewrite parse_one_line by exact Hh. apply IH.
+  cbn [flat_map fold_left]. rewrite <- app_assoc. rewrite parse_header by exact Hh. apply IH.
 Qed.
 
 (* ---------- the table of headers ---------- *)
@@ -240,21 +305,41 @@ Proof.
   - rewrite IH by (intros K; apply H; right; exact K). reflexivity.
 Qed.
 
+Lemma hdr_add_last hs k v fr : ~ In k (map fst hs) -> hdr_add (hs ++ [(k, v)]) k fr false = hs ++ [(k, v ++ fr)].
+Proof.
+  induction hs as [|[n w] hs IH]; intros H.
+  - cbn. rewrite (proj2 (bytes_eqb_eq k k) eq_refl). reflexivity.
+  - cbn [app hdr_add]. destruct (bytes_eqb n k) eqn:E.
+    + apply bytes_eqb_eq in E. subst. exfalso. apply H. left. reflexivity.
+    + rewrite IH by (intros K; apply H; right; exact K). reflexivity.
+Qed.
+
+Lemma add_conts_last cs : forall hs k v, ~ In k (map fst hs) ->
+  add_conts k (hs ++ [(k, v)]) cs = hs ++ [(k, v ++ flat_map cont_frags cs)].
+Proof.
+  induction cs as [|c cs IH]; intros hs k v H; [cbn; rewrite app_nil_r; reflexivity|].
+  unfold add_conts. cbn [fold_left]. rewrite hdr_add_last by exact H.
+  fold (add_conts k (hs ++ [(k, v ++ cont_frags c)]) cs). rewrite IH by exact H.
+  cbn [flat_map]. rewrite <- app_assoc. reflexivity.
+Qed.
+
+Lemma add_line_absent hs h : ~ In (key_of h) (map fst hs) -> add_line hs h = hs ++ [(key_of h, frags h)].
+Proof.
+  intros H. unfold add_line. rewrite hdr_add_absent by exact H. rewrite add_conts_last by exact H. reflexivity.
+Qed.
+
 Lemma fold_add_distinct ls : forall hs, NoDup (map fst hs ++ map key_of ls) ->
-  fold_left add_line ls hs = hs ++ map (fun h => (key_of h, [padded h])) ls.
+  fold_left add_line ls hs = hs ++ map (fun h => (key_of h, frags h)) ls.
 Proof.
   induction ls as [|h ls IH]; intros hs ND; [cbn; rewrite app_nil_r; reflexivity|].
-  cbn [fold_left map]. unfold add_line at 2.
-  rewrite hdr_add_absent.
+  cbn [fold_left map].
+  rewrite add_line_absent.
   2:{ intros K. apply NoDup_remove_2 in ND. apply ND. apply in_or_app. left. exact K. }
   rewrite IH.
   - rewrite <- app_assoc. reflexivity.
   - rewrite map_app. cbn [map fst]. rewrite <- app_assoc. cbn [app].
-    (* move key_of h from the middle to its place *)
     apply NoDup_remove in ND as [ND1 ND2].
-    apply NoDup_Add with (a := key_of h) (l := map fst hs ++ map key_of ls); [|exact (conj ND2 ND1) || idtac].
-    + apply Add_app.
-    + split; assumption.
+    apply NoDup_Add with (a := key_of h) (l := map fst hs ++ map key_of ls); [apply Add_app|split; assumption].
 Qed.
 
 Lemma find_key l k v : NoDup (map fst l) -> In (k, v) l ->
@@ -266,6 +351,15 @@ Proof.
     exfalso. inversion ND as [|? ? Hn _]; subst. apply Hn. apply in_map_iff. exists (k, v). split; [reflexivity|exact H].
   - destruct H as [H|H]; [inversion H; subst; rewrite (proj2 (bytes_eqb_eq k k) eq_refl) in E; discriminate|].
     inversion ND; subst. apply IH; assumption.
+Qed.
+
+(* an unfolded header: the value is the one written, blanks stripped *)
+Lemma value_text_unfolded h : wf_line h -> hl_cont h = [] -> strip (value_text h) = strip (hl_value h).
+Proof.
+  intros W E. unfold value_text, frags. rewrite E. cbn [flat_map app concat]. rewrite app_nil_r.
+  unfold padded. apply strip_pad.
+  - destruct W as [_ L _ _ _]. eapply Forall_impl; [|exact L]. exact blank_space.
+  - destruct W as [_ _ _ T _]. eapply Forall_impl; [|exact T]. exact blank_space.
 Qed.
 
 (* ---------- the status line ---------- *)
@@ -313,7 +407,7 @@ Qed.
 (* ---------- the whole reply ---------- *)
 Record reply := { rp_version : bytes; rp_code : N; rp_reason : bytes; rp_lines : list hline }.
 Definition status_line (r : reply) : bytes := rp_version r ++ SP :: decimal (rp_code r) ++ SP :: rp_reason r.
-Definition render_reply (r : reply) : bytes := join_crlf (status_line r :: map render_line (rp_lines r) ++ [[]; []]).
+Definition render_reply (r : reply) : bytes := join_crlf (status_line r :: flat_map render_lines (rp_lines r) ++ [[]; []]).
 
 Record wf_reply (r : reply) : Prop := {
   wr_version : rp_version r <> [] /\ Forall (fun b => is_bspace b = false) (rp_version r);
@@ -327,7 +421,7 @@ Lemma bspace_crlf b : is_bspace b = false -> b <> CR /\ b <> LF.
 Proof. intros H. split; intros ->; discriminate H. Qed.
 
 Lemma reply_lines r : wf_reply r ->
-  split_on CRLF (render_reply r) = status_line r :: map render_line (rp_lines r) ++ [[]; []].
+  split_on CRLF (render_reply r) = status_line r :: flat_map render_lines (rp_lines r) ++ [[]; []].
 Proof.
   intros [[_ Fv] Hc Hr Hl _]. unfold render_reply. apply split_on_join; [discriminate|].
   constructor.
@@ -338,8 +432,10 @@ Proof.
       intros b Hb. apply bspace_crlf. apply digit_not_bspace. exact Hb.
     + constructor; [split; discriminate|exact Hr].
   - apply Forall_app; split.
-    + apply Forall_forall. intros l Hin. apply in_map_iff in Hin as (h & <- & Hh).
-      rewrite Forall_forall in Hl. apply line_no_crlf. apply Hl. exact Hh.
+    + apply Forall_forall. intros l Hin. apply in_flat_map in Hin as (h & Hh & Hin).
+      rewrite Forall_forall in Hl. specialize (Hl h Hh). destruct Hin as [<-|Hin]; [apply line_no_crlf; exact Hl|].
+      apply in_map_iff in Hin as (c & <- & Hc'). apply cont_no_crlf.
+      destruct Hl as [_ _ _ _ Wc]. rewrite Forall_forall in Wc. apply Wc. exact Hc'.
     + repeat constructor.
 Qed.
 
@@ -347,7 +443,7 @@ Qed.
 Theorem parse_rendered_reply r : wf_reply r ->
   r_status (parse_response (render_reply r)) = Some (rp_code r) /\
   (forall h q, In h (rp_lines r) -> lower_s q = key_of h ->
-     resp_get (parse_response (render_reply r)) q = Some (strip (hl_value h))) /\
+     resp_get (parse_response (render_reply r)) q = Some (strip (value_text h))) /\
   (forall q, ~ In (lower_s q) (map key_of (rp_lines r)) -> resp_get (parse_response (render_reply r)) q = None).
 Proof.
   intros W. pose proof (reply_lines r W) as HL. destruct W as [[Hv Fv] Hc Hr Hl ND].
@@ -359,10 +455,8 @@ Proof.
   - intros h q Hin Hq. unfold resp_get. cbn [r_headers].
     rewrite parse_lines by exact Hl. rewrite fold_add_distinct by (cbn [map app]; exact ND). cbn [app].
     rewrite Hq.
-    rewrite (find_key _ (key_of h) [padded h]).
-    + cbn [concat]. rewrite app_nil_r. unfold padded. f_equal. apply strip_pad.
-      * rewrite Forall_forall in Hl. destruct (Hl h Hin) as [_ L _ _]. eapply Forall_impl; [|exact L]. exact blank_space.
-      * rewrite Forall_forall in Hl. destruct (Hl h Hin) as [_ _ _ T]. eapply Forall_impl; [|exact T]. exact blank_space.
+    rewrite (find_key _ (key_of h) (frags h)).
+    + reflexivity.
     + rewrite map_map. cbn [fst]. exact ND.
     + apply in_map_iff. exists h. split; [reflexivity|exact Hin].
   - intros q Hq. unfold resp_get. cbn [r_headers].
@@ -372,7 +466,7 @@ Proof.
     apply Hq. apply in_map_iff in E1 as (h & Eh & Hin). inversion Eh; subst. apply in_map_iff. exists h. split; [congruence|exact Hin].
 Qed.
 
-(* order does not matter: two replies whose header lines are permutations of each other are read alike *)
+(* order does not matter: two replies whose headers are permutations of each other are read alike *)
 Corollary reply_order_irrelevant r r' : wf_reply r -> wf_reply r' ->
   rp_code r = rp_code r' -> (forall h, In h (rp_lines r) <-> In h (rp_lines r')) ->
   r_status (parse_response (render_reply r)) = r_status (parse_response (render_reply r')) /\
@@ -395,8 +489,7 @@ Proof.
   intros Hs Hg. unfold on_response, resp_get_list. rewrite Hs, !Hg. reflexivity.
 Qed.
 
-(* ... hence it depends on the SET of header lines, not on their order, the letter case of the names or the blanks around
-   the values *)
+(* ... hence it depends on the SET of headers, not on their order *)
 Theorem decision_rendering_independent accept r r' : wf_reply r -> wf_reply r' ->
   rp_code r = rp_code r' -> (forall h, In h (rp_lines r) <-> In h (rp_lines r')) ->
   on_response accept (parse_response (render_reply r)) = on_response accept (parse_response (render_reply r')).
@@ -404,8 +497,8 @@ Proof.
   intros W W' Hc Hp. destruct (reply_order_irrelevant r r' W W' Hc Hp) as [S G]. apply on_response_ext; assumption.
 Qed.
 
-(* the same header with its name in another letter case and other blanks around the value *)
-Definition same_header (h h' : hline) : Prop := key_of h = key_of h' /\ strip (hl_value h) = strip (hl_value h').
+(* the same header with its name in another letter case, other blanks around the value, folded at other places *)
+Definition same_header (h h' : hline) : Prop := key_of h = key_of h' /\ strip (value_text h) = strip (value_text h').
 
 Theorem decision_spelling_independent accept r r' : wf_reply r -> wf_reply r' ->
   rp_code r = rp_code r' ->
@@ -423,3 +516,11 @@ Proof.
     apply in_map_iff in K as (h' & Eh & Hin'). destruct (H2 h' Hin') as (h & Hin & Ek & _).
     apply in_map_iff. exists h. split; [congruence|exact Hin].
 Qed.
+
+(* folding a value at a blank does not change what is read: "a b" on one line, and "a" continued by " b" *)
+Example folding_example :
+  let one := {| hl_name := str "Upgrade"%string; hl_lead := [SP]; hl_value := str "web socket"%string; hl_trail := []; hl_cont := [] |} in
+  let two := {| hl_name := str "UPGRADE"%string; hl_lead := []; hl_value := str "web"%string; hl_trail := [];
+                hl_cont := [([SP; HT], str "socket"%string)] |} in
+  same_header one two.
+Proof. vm_compute. split; reflexivity. Qed.
